@@ -339,6 +339,7 @@ package ion
 //@ ensures[C03,C13] err == nil && (old(b.len) < 8 || (old(b.len) == 8 && old(bsByte(b, 0))&0x80 == 0)) && old(b.code) == bitcodeNegInt ==>
 //@    vcIsInt64(result) && vcAsInt64(result) == -int64(specBEValue(bsS(b).data, old(bsS(b).cur), old(b.len)))
 //@ ensures[C13] err == nil && (old(b.len) > 8 || (old(b.len) == 8 && old(bsByte(b, 0))&0x80 != 0)) ==> vcIsBigInt(result)
+//@ ensures[C06,C13] err == nil ==> vcIsInt64(result) || (vcIsBigInt(result) && vcAsBigInt(result) != nil)
 //@ ensures[C03,C07] old(b.code) == bitcodeNegInt && old(b.len) <= 8 && uint64(old(bsAvail(b))) >= old(b.len) &&
 //@    specBEValue(bsS(b).data, old(bsS(b).cur), old(b.len)) == 0 ==> err != nil
 //@ ensures[C03] uint64(old(bsAvail(b))) >= old(b.len) && old(b.len) <= 8 &&
@@ -619,7 +620,9 @@ package ion
 //@ ensures[C03,C06,C08] err == nil ==> bsNested(&r.bits)
 //@ ensures[C03,C08,C10] err == nil && !result ==> r.valueType == NoType && r.value == nil && !r.eof
 //@ ensures[C03,C08] old(r.bits.state) == bssBeforeValue && (old(bsTop(&r.bits)) || old(r.bits.pos) != old(bsTopEnd(&r.bits))) && old(bsAvail(&r.bits)) > 0 && err == nil &&
-//@    specIonType(old(bsByte(&r.bits, 0))) != NoType ==> result && !r.eof && r.valueType == specIonType(old(bsByte(&r.bits, 0))) && ((r.value == nil) == specTagNull(old(bsByte(&r.bits, 0))))
+//@    specIonType(old(bsByte(&r.bits, 0))) != NoType &&
+//@    !(specIonType(old(bsByte(&r.bits, 0))) == StructType && old(len(r.ctx.arr)) == 0 && specIsLSTAnnotation(old(r.annotations))) ==>
+//@    result && !r.eof && r.valueType == specIonType(old(bsByte(&r.bits, 0))) && ((r.value == nil) == specTagNull(old(bsByte(&r.bits, 0))))
 //@ ensures[C03,C10] old(r.bits.state) == bssBeforeValue && (old(bsTop(&r.bits)) || old(r.bits.pos) != old(bsTopEnd(&r.bits))) && old(bsAvail(&r.bits)) > 0 && err == nil &&
 //@    specIonType(old(bsByte(&r.bits, 0))) == NoType ==> !result && r.valueType == old(r.valueType)
 //@ ensures[C03] old(r.bits.state) == bssBeforeValue && (old(bsTop(&r.bits)) || old(r.bits.pos) != old(bsTopEnd(&r.bits))) && old(bsAvail(&r.bits)) > 0 && err == nil &&
@@ -628,6 +631,9 @@ package ion
 //@ ensures[C07] old(r.bits.state) == bssBeforeValue && (old(bsTop(&r.bits)) || old(r.bits.pos) != old(bsTopEnd(&r.bits))) && old(bsAvail(&r.bits)) > 0 &&
 //@    specTagIllegal(old(bsByte(&r.bits, 0)), old(bsTop(&r.bits))) ==> err != nil
 //@ ensures[C07] old(r.bits.state) == bssBeforeValue && !old(bsTop(&r.bits)) && old(r.bits.pos) != old(bsTopEnd(&r.bits)) && old(bsAvail(&r.bits)) == 0 ==> err != nil
+//@ ensures[C10] old(r.bits.state) == bssBeforeValue && old(bsTop(&r.bits)) && old(bsAvail(&r.bits)) > 0 && err == nil && old(len(r.ctx.arr)) == 0 &&
+//@    specIonType(old(bsByte(&r.bits, 0))) == StructType && specIsLSTAnnotation(old(r.annotations)) ==> !result && r.lst != nil &&
+//@    (specTagNull(old(bsByte(&r.bits, 0))) ==> r.lst == V1SystemSymbolTable)
 //@ safe[C06]
 
 // ---------------------------------------------------------------------------
